@@ -25,7 +25,7 @@ IsDigit(c) == c >= 48 /\ c <= 57
 Val(neg, d, eneg, e) == [neg |-> neg, d |-> d, eneg |-> eneg, e |-> e]
 Zeros(n) == [i \in 1..n |-> 0]
 IsZero(v) == \A i \in 1..Len(v.d) : v.d[i] = 0
-\* canonical form written by "%1.9E": zero is +0.000000000E+00; otherwise d1 # 0
+\* canonical form written by the E-format with 9 decimals: zero is +0.000000000E+00; otherwise d1 # 0
 Canonical(v) == Len(v.d) = 10 /\ (IF IsZero(v) THEN ~v.eneg /\ v.e = 0 ELSE v.d[1] # 0) /\ (v.e = 0 => ~v.eneg)
 
 TwoDigits(n) == <<D0 + (n \div 10), D0 + (n % 10)>>
@@ -201,8 +201,21 @@ Words(line, i, cur) ==
   ELSE IF line[i] = SP THEN (IF cur = <<>> THEN <<>> ELSE <<cur>>) \o Words(line, i + 1, <<>>)
   ELSE Words(line, i + 1, Append(cur, line[i]))
 AllDigits(w) == w # <<>> /\ \A k \in 1..Len(w) : IsDigit(w[k])
+\* Python's int() on a fixed-width field: blanks around an optionally signed run of digits
+RECURSIVE LStrip(_)
+LStrip(w) == IF w # <<>> /\ Head(w) = SP THEN LStrip(Tail(w)) ELSE w
+RECURSIVE RStrip(_)
+RStrip(w) == IF w # <<>> /\ w[Len(w)] = SP THEN RStrip(SubSeq(w, 1, Len(w) - 1)) ELSE w
+FieldOK(f) == LET w == RStrip(LStrip(f)) IN
+                 AllDigits(w) \/ (Len(w) >= 2 /\ w[1] \in {PLUS, MINUS} /\ AllDigits(Tail(w)))
+FieldVal(f) == IntOfToken(RStrip(LStrip(f)))
+\* the reader: the fixed-width (3i4) fields at the end of the line if they are three integers,
+\* otherwise the last three whitespace-separated words
 HeaderParse(line) ==
-  LET ws == Words(line, 1, <<>>) n == Len(ws) IN
-  IF n >= 3 /\ AllDigits(ws[n]) /\ AllDigits(ws[n - 1]) /\ AllDigits(ws[n - 2])
-    THEN <<IntOfToken(ws[n - 1]), IntOfToken(ws[n])>> ELSE <<-1, -1>>
+  LET n == Len(line)
+      f1 == SubSeq(line, n - 11, n - 8)  f2 == SubSeq(line, n - 7, n - 4)  f3 == SubSeq(line, n - 3, n)
+      ws == Words(line, 1, <<>>)  m == Len(ws)
+  IN IF n >= 12 /\ FieldOK(f1) /\ FieldOK(f2) /\ FieldOK(f3) THEN <<FieldVal(f2), FieldVal(f3)>>
+     ELSE IF m >= 3 /\ AllDigits(ws[m]) /\ AllDigits(ws[m - 1]) /\ AllDigits(ws[m - 2])
+       THEN <<IntOfToken(ws[m - 1]), IntOfToken(ws[m])>> ELSE <<-1, -1>>
 =============================================================================
